@@ -364,7 +364,12 @@ func propC13(rec *stats.Rec, sc *scratch, auto bool) func(t *rapid.T) {
 				} else {
 					f = l.NewInvalidFile(t, "brk", l.Pool[x.d].Name, x.n)
 				}
-				if err := l.PutFile(x.d, f); err != nil {
+				// replaced by rename, or overwritten in place (truncate + write; an empty file is truncation only)
+				put := l.PutFile
+				if rapid.Bool().Draw(t, "inPlace") {
+					put = l.PutFileInPlace
+				}
+				if err := put(x.d, f); err != nil {
 					t.Fatalf("VERIF-HARNESS: %v", err)
 				}
 				s.markUsed()
